@@ -32,6 +32,10 @@ RootDs(rk) == CASE rk = "plain" -> <<>>
                 [] rk = "flag" -> <<<<"flag", "lit", "on">>>>
                 [] rk = "lst" -> <<<<"lst", "lit", LAB>>>>
                 [] rk = "both" -> <<<<"flag", "lit", "on">>, <<"lst", "lit", LAB>>>>
+                \* per-element lists of different lengths, one of them empty (cards_<outer element>)
+                [] rk = "cards" -> <<<<"flag", "lit", "on">>, <<"cards_a", "lit", LP>>, <<"cards_b", "lit", LPQ>>,
+                                     <<"cards_c", "lit", LE>>>>
+                [] rk = "cardsab" -> <<<<"cards_a", "lit", LPQ>>, <<"cards_b", "lit", LB>>>>   \* none for "c"
                 [] OTHER -> <<>>
 UvOf(uk) == CASE uk = "none" -> <<>>
               [] uk = "flagoff" -> <<<<"flag", "off">>>>
@@ -39,15 +43,25 @@ UvOf(uk) == CASE uk = "none" -> <<>>
               [] uk = "lstbad" -> <<<<"lst", "on">>>>   \* not a list: the range cannot be evaluated
               [] OTHER -> <<>>
 
-ForSpec(fk, var) ==
-  CASE fk = "lab" -> [t |-> "list", s |-> LAB, b |-> 0, e |-> 0, x |-> "", var |-> var]
-    [] fk = "lb" -> [t |-> "list", s |-> LB, b |-> 0, e |-> 0, x |-> "", var |-> var]
-    [] fk = "le" -> [t |-> "list", s |-> LE, b |-> 0, e |-> 0, x |-> "", var |-> var]
-    [] fk = "be12" -> [t |-> "be", s |-> "", b |-> 1, e |-> 2, x |-> "", var |-> var]
-    [] fk = "be21" -> [t |-> "be", s |-> "", b |-> 2, e |-> 1, x |-> "", var |-> var]
-    [] fk = "var" -> [t |-> "var", s |-> "", b |-> 0, e |-> 0, x |-> "lst", var |-> var]
-    [] OTHER -> [t |-> "list", s |-> LE, b |-> 0, e |-> 0, x |-> "", var |-> var]
-FirstConst(fk) == IF fk \in {"be12", "be21"} THEN "1" ELSE "a"
+FS(t, ls, b, e, bv, ev, x, var) == [t |-> t, s |-> ls, b |-> b, e |-> e, bv |-> bv, ev |-> ev, x |-> x, var |-> var]
+\* ov = the innermost iteration variable already in scope ("" if none): the kinds "dep", "beE", "bBe" make
+\* the range of a NESTED iterator depend on it, so that every outer child has its own inner range
+ForSpec(fk, var, ov) ==
+  CASE fk = "lab" -> FS("list", LAB, 0, 0, "", "", "", var)
+    [] fk = "labc" -> FS("list", LABC, 0, 0, "", "", "", var)
+    [] fk = "lb" -> FS("list", LB, 0, 0, "", "", "", var)
+    [] fk = "le" -> FS("list", LE, 0, 0, "", "", "", var)
+    [] fk = "be12" -> FS("be", "", 1, 2, "", "", "", var)
+    [] fk = "be21" -> FS("be", "", 2, 1, "", "", "", var)
+    [] fk = "be02" -> FS("be", "", 0, 2, "", "", "", var)
+    [] fk = "be03" -> FS("be", "", 0, 3, "", "", "", var)
+    [] fk = "var" -> FS("var", "", 0, 0, "", "", "lst", var)
+    [] fk = "dep" -> FS("dep", "", 0, 0, "", "", ov, var)       \* range: {{ $env['cards_' + ov] }}
+    [] fk = "beE" -> FS("be", "", 1, 0, "", ov, "", var)        \* begin 1, end {{ ov }}
+    [] fk = "bBe" -> FS("be", "", 0, 2, ov, "", "", var)        \* begin {{ ov }}, end 2
+    [] OTHER -> FS("list", LE, 0, 0, "", "", "", var)
+DepKinds == {"dep", "beE", "bBe"}
+FirstConst(fk) == IF fk \in {"be12", "be21", "be02", "be03", "beE", "bBe"} THEN "1" ELSE IF fk = "dep" THEN "p" ELSE "a"
 
 RECURSIVE DepthOf(_, _), AncSelf(_, _)
 DepthOf(TT, i) == IF i <= 1 THEN 0 ELSE 1 + DepthOf(TT, TT[i].par)
@@ -56,7 +70,7 @@ RightmostAggs(TT) == {a \in {AncSelf(TT, Len(TT))[q] : q \in 1..Len(AncSelf(TT, 
 \* iteration variables in scope below node par (outermost first), with the constant their first element is compared to
 Scope(TT, par) ==
   LET as == SelectSeq(AncSelf(TT, par), LAMBDA a : TT[a].for # <<>>)
-  IN [q \in 1..Len(as) |-> <<TT[as[q]].for[1].var, IF TT[as[q]].for[1].t = "be" THEN "1" ELSE "a">>]
+  IN [q \in 1..Len(as) |-> <<TT[as[q]].for[1].var, IF TT[as[q]].for[1].t = "be" THEN "1" ELSE IF TT[as[q]].for[1].t = "dep" THEN "p" ELSE "a">>]
 
 EnOf(ek, sc) ==
   CASE ek = "T" -> ENT
@@ -82,6 +96,7 @@ G_Add(par, k, fk, ek, vk, x, ps, sub) ==
          myvar == IF Len(sc) = 0 THEN "it" ELSE "jt"
          sc2 == IF fk = "none" THEN sc ELSE Append(sc, <<myvar, FirstConst(fk)>>)
      IN /\ fk # "none" => Len(sc) < 2
+        /\ fk \in DepKinds => sc # <<>>
         /\ ek \in {"iteq", "itne"} => sc2 # <<>>
         /\ vk = "flagit" => sc2 # <<>>
         /\ x \in {"hook", "chan"} => k \in {"task", "call"}
@@ -90,7 +105,7 @@ G_Add(par, k, fk, ek, vk, x, ps, sub) ==
         /\ ps => (AllowPoison /\ ~Poisoned)
         /\ T' = Append(T, Nd(par, k, Initial(k) \o ToString(Len(T) + 1),
                              [q \in 1..Len(sc2) |-> sc2[q][1]], EnOf(ek, sc2), VsOf(vk, sc2), <<>>,
-                             ps, x, sub, IF fk = "none" THEN <<>> ELSE <<ForSpec(fk, myvar)>>))
+                             ps, x, sub, IF fk = "none" THEN <<>> ELSE <<ForSpec(fk, myvar, IF sc = <<>> THEN "" ELSE sc[Len(sc)][1])>>))
   /\ UNCHANGED uv
 
 GenInit ==
@@ -157,11 +172,14 @@ PathsOk(s, pp) == \A q \in 1..Len(s) :
 Inv_Paths == PathsOk(LI.out, "") /\ PathsOk(LAsIs.out, "")
 
 \* order: children appear in template order; the instances of one iterator in range order
+Literal(f) == f.t = "list" \/ (f.t = "be" /\ f.bv = "" /\ f.ev = "")
 RangeIdx(f, val) ==
   CASE f.t = "list" -> IF \E q \in 1..Len(ListOf(f.s)) : ListOf(f.s)[q] = val
                          THEN CHOOSE q \in 1..Len(ListOf(f.s)) : ListOf(f.s)[q] = val ELSE 0
-    [] f.t = "be" -> IF \E q \in 1..(f.e - f.b + 1) : ToString(f.b + q - 1) = val
+    [] f.t = "be" /\ Literal(f) -> IF \E q \in 1..(f.e - f.b + 1) : ToString(f.b + q - 1) = val
                        THEN CHOOSE q \in 1..(f.e - f.b + 1) : ToString(f.b + q - 1) = val ELSE 0
+    [] f.t = "be" /\ ~Literal(f) -> IF val \in NumTexts THEN NumOf(val) + 1 ELSE 0   \* order only
+    [] f.t = "dep" -> IF val = "p" THEN 1 ELSE IF val = "q" THEN 2 ELSE IF val = "b" THEN 3 ELSE 0   \* order only
     [] OTHER -> -1
 InstIdx(nd) == LET f == Src(nd).for[1] v == LookupSt(nd.st, f.var)
                IN IF v = <<>> THEN 0 ELSE RangeIdx(f, v[1])
@@ -177,7 +195,7 @@ Inv_Order == OrderOk(LI.out) /\ OrderOk(LAsIs.out)
 \* binding: an instance of an iterator's template role has the iteration variable bound to an element of the range
 Inv_Bound == \A q \in 1..Len(Flat(LI.out)) :
                LET nd == Flat(LI.out)[q] IN
-                 (nd.k # "inc" /\ Src(nd).for # <<>> /\ Src(nd).for[1].t # "var") => InstIdx(nd) >= 1
+                 (nd.k # "inc" /\ Src(nd).for # <<>> /\ Literal(Src(nd).for[1])) => InstIdx(nd) >= 1
 
 \* completeness on templates where nothing is disabled, poisoned, included or undefined:
 \* every leaf appears exactly once per combination of the enclosing ranges
@@ -185,10 +203,28 @@ RECURSIVE Mult(_)
 Mult(i) == IF i = 0 THEN 1
            ELSE (IF T[i].for = <<>> THEN 1 ELSE Len(RangeOf(T[i].for[1], EmptyMap))) * Mult(T[i].par)
 Plain == \A i \in 1..Len(T) : /\ T[i].en[1] = "T" /\ ~T[i].ps /\ T[i].k # "inc"
-                              /\ (T[i].for # <<>> => T[i].for[1].t # "var")
+                              /\ (T[i].for # <<>> => Literal(T[i].for[1]))
                               /\ \A q \in 1..Len(T[i].vs) : T[i].vs[q][2] = "lit"
 Inv_Complete == Plain =>
   /\ ~LI.err
   /\ \A i \in 1..Len(T) : T[i].k \in {"task", "call"} =>
        Cardinality({q \in 1..Len(Flat(LI.out)) : Flat(LI.out)[q].src = <<"", i>>}) = Mult(i)
+
+(* nested iterators: the instances of an iterator that is a child of a surviving aggregator role nd  *)
+(* (in particular of an instance of an OUTER iterator's template role) are, in order, exactly the     *)
+(* elements of the range resolved in nd's OWN environment - per outer element, not once per template *)
+RootMap == MapOf(T[1].ds, EmptyMap)
+EnvAt(nd) == PairsMap(nd.st) @@ PairsMap(uv) @@ RootMap   \* only the root and uv define non-probed variables here
+SimpleLeaf(j) == T[j].k \in {"task", "call"} /\ T[j].en[1] = "T" /\ ~T[j].ps
+PerOuterOk(r) ==
+  ~r.err => \A q \in 1..Len(Flat(r.out)) :
+    LET nd == Flat(r.out)[q] IN
+      (nd.src[1] = "" /\ nd.k = "agg") =>
+        \A j \in 1..Len(T) :
+          (T[j].par = nd.src[2] /\ T[j].for # <<>> /\ SimpleLeaf(j)) =>
+            LET insts == SelectSeq(nd.ch, LAMBDA c : c.src = <<"", j>>)
+            IN /\ RangeOk(T[j].for[1], EnvAt(nd))
+               /\ [c \in 1..Len(insts) |-> LookupSt(insts[c].st, T[j].for[1].var)]
+                    = [c \in 1..Len(RangeOf(T[j].for[1], EnvAt(nd))) |-> <<RangeOf(T[j].for[1], EnvAt(nd))[c]>>]
+Inv_NestedPerOuter == PerOuterOk(LI) /\ PerOuterOk(LAsIs)
 =============================================================================
